@@ -3,9 +3,11 @@ import VivModel.Props.C01
 /-! C18 — resuming from a backup continues the same simulation (model-level part).
 
 The content is that one engine step is a function of the world alone (`stepW` has no other input), so
-cutting a run at any step boundary, serialising, restoring and continuing gives the uninterrupted run
-– given the `dill` contract `restore ∘ backup = id`. Fidelity of `dill` on the live Python object
-graph is runtime behaviour and is explored at every step boundary, not proved (PARTIAL). -/
+cutting a run at any step boundary – once, twice or any number of times (`resume_chain_eq`) –, serialising,
+restoring and continuing through any of the driving APIs gives the uninterrupted run, given the `dill`
+contract `restore ∘ backup = id`; and that the engine's own backup loop writes exactly the worlds at the step
+boundaries without disturbing the run (`backups_are_boundaries`, `backups_do_not_perturb`). Fidelity of `dill`
+on the live Python object graph is runtime behaviour and is explored at every step boundary, not proved (PARTIAL). -/
 namespace Viv.Props.C18
 open Viv.Engine Viv.Ctx Viv.Ev Viv.Props.C08 Viv.Props.C01
 
@@ -92,6 +94,60 @@ theorem vrun_resume_count {W : Type} (S : VSys W) (stop : Int) (n : Nat) :
       omega
     · simp only [hlt, if_false] at h
       omega
+
+/-! ### more than one interruption, the backups `run(backup_path, …)` writes, resuming through the interactive API -/
+
+/-- interrupted TWICE (backup, restore, continue, backup again, restore again, continue) = never interrupted -/
+theorem resume_twice_eq {σ : Type} (h : Handler σ) (a b c : Nat) (w : World σ) :
+    (iter h a w >>= fun w₁ => iter h b (restore (backup w₁)) >>= fun w₂ => iter h c (restore (backup w₂))) =
+      iter h (a + b + c) w := by
+  rw [iter_add h (a + b) c, iter_add h a b]
+  cases iter h a w with
+  | ok w₁ => rfl
+  | error f => rfl
+
+/-- ANY number of interruptions at ANY boundaries: a run cut into segments, written and read back after each, is the
+uninterrupted run – for any step function and any `save`/`load` pair with `load ∘ save = id` (the dill contract) -/
+theorem resume_chain_eq {W : Type} (S : VSys W) (save load : W → W) (hl : ∀ w, load (save w) = w) (ns : List Nat) (w : W) :
+    S.segments save load ns w = S.iter ns.sum w := by
+  induction ns generalizing w with
+  | nil => rfl
+  | cons n r ih => simp only [VSys.segments, hl, ih, List.sum_cons, viter_add]
+
+/-- the engine's own backup loop `run(backup_path, backup_freq)`: writing the backups does not disturb the run … -/
+theorem backups_do_not_perturb {W : Type} (S : VSys W) (stop : Int) (fuel : Nat) (w : W) :
+    (S.runB stop fuel w).2 = (S.run stop fuel w).2 := by
+  induction fuel generalizing w with
+  | zero => rfl
+  | succ n ih =>
+    simp only [VSys.runB, VSys.run]
+    split
+    · exact ih _
+    · rfl
+
+/-- … and the backups it writes are exactly the worlds at the step boundaries 1, 2, …, N of the run, in order: a backup
+is always taken after a WHOLE number of steps -/
+theorem backups_are_boundaries {W : Type} (S : VSys W) (stop : Int) (fuel : Nat) (w : W) :
+    (S.runB stop fuel w).1 = (List.range (S.run stop fuel w).1).map (fun k => S.iter (k + 1) w) := by
+  induction fuel generalizing w with
+  | zero => rfl
+  | succ n ih =>
+    simp only [VSys.runB, VSys.run]
+    split
+    · simp only [ih, List.range_succ_eq_map, List.map_cons, List.map_map]
+      rfl
+    · rfl
+
+/-- a backup restored into an InteractiveContext and continued with `run_until(stop)` / `InteractiveContext.run()` ends
+where the uninterrupted `SimulationContext.run()` ends -/
+theorem resume_interactive {W : Type} (S : VSys W) (stop : Int) (n fuel : Nat) (w : W)
+    (hn : n ≤ (S.run stop (fuel + n) w).1) :
+    (S.runUntil stop fuel (S.iter n w)).2 = (S.run stop (fuel + n) w).2 := by
+  rw [run_until_eq_run]; exact vrun_resume S stop n fuel w hn
+
+-- non-vacuity: the varying clock interrupted after 1 and after 1 more step; the backups of its run
+example : varying.segments id id [1, 1, 0] (0, 1) = (varying.run 4 100 (0, 1)).2 := by decide
+example : (varying.runB 4 100 (0, 1)).1 = [(1, 3), (4, 3)] := by decide
 
 -- non-vacuity: interrupting the varying-step clock of C01 after its first step
 example : (varying.run 4 100 (varying.iter 1 (0, 1))).2 = (varying.run 4 101 (0, 1)).2 := by decide
